@@ -96,6 +96,15 @@ def check_spec(acc: Acc, cfg, spec, payload: dict) -> None:
     except Exception as e:  # noqa: BLE001
         acc.violation("round-trip-raises", call_site(e), where, f"using the reloaded specification: {type(e).__name__}: {str(e)[:200]}", payload)
         return
+    # the comparison must not depend on whether the specification was used in between
+    # (counting may fill caches inside strategies or rules)
+    try:
+        again = CombinatorialSpecification.from_dict(rt(spec.to_jsonable()))
+        if not (again == spec and spec == again):
+            acc.violation("spec!=round-trip-after-use", "AbstractStrategy.__eq__", where,
+                          "after counting with it, the specification is no longer equal to its JSON round trip", payload)
+    except Exception as e:  # noqa: BLE001
+        acc.violation("round-trip-raises", call_site(e), where, f"second round trip: {type(e).__name__}: {str(e)[:200]}", payload)
     acc.nt((where, spec_signature(spec)))
     acc.outcome(rule_kinds(spec))
 
@@ -321,6 +330,11 @@ def _worker_bijections(arg) -> Acc:
 
 def spec_configs(tier: str) -> List[Any]:
     cfgs = lattice(tier)
+    for cl in dw.start_classes("quick"):
+        # verified classes counted through the pack their strategy offers
+        cfgs.append(Cfg.of(cl, "verp:a,b", "RuleDB"))
+        cfgs.append(Cfg.of(cl, "verp:e", "Forest"))
+        cfgs.append(Cfg.of(cl, "ver2:a>ab", "RuleDB"))
     if tier == "quick":
         cfgs = [c for c in cfgs if not getattr(c, "debug", False)]
     return cfgs
